@@ -207,7 +207,7 @@ def run(tier):
                 nrep += 1
                 v.add('C19', key, blk, fw.write_text_replay('C19', key, blk))
     b, f = tot.get('baton', {}), tot.get('free', {})
-    if not b or not f:
+    if (not b or not f) and not v.violations:
         raise fw.Inconclusive('a mode produced no summary')
     cov = {'evaluations': b.get('runs', 0) + f.get('runs', 0), 'distinct_nontrivial': b.get('distinct_schedules', 0),
            'rule': 'an evaluation is one connection run (solo reference runs included); distinct_nontrivial = distinct call-level interleavings (hash of the baton schedule) executed in baton mode. '
